@@ -3,8 +3,8 @@
    the hypotheses are satisfiable by non-trivial states.
    `reached ops` is the state after ANY history of creations, removals, reference keeping/dropping,
    set construction, activations (with callbacks that may raise or start activations of their own)
-   and group activations, from the empty model.  `ex1 sc2` is the executor of the callbacks of an
-   op's activation (sc2 = what agents called by a nested activation do); statements marked "any ex"
+   and group activations, from the empty model.  `exN scs` is the executor of the callbacks of an
+   op's activation (scs = what agents called by nested activations do, one script per nesting level, any depth); statements marked "any ex"
    hold for every executor. *)
 From Coq Require Import ZArith List Bool Permutation.
 From Mesa Require Import Common.ListX Generated.Tables Model.Activation Model.ActivationCode
@@ -39,10 +39,10 @@ Proof. exact reached_by_type. Qed.
 Print Assumptions C04_by_type_is_filtered_registry.
 
 (* --- one activation (do / shuffle_do / map), any set, any scripts, any shuffle outcome --- *)
-Theorem C04_once : forall sc2 ops k r perm sc snap s' log rz,
+Theorem C04_once : forall scs ops k r perm sc snap s' log rz,
   lookup r (sets (reached ops)) = Some snap ->
-  activate (ex1 sc2) k perm sc snap (reached ops) = Some (s', log, rz) -> NoDup log.
-Proof. intro sc2. exact (reached_once (ex1 sc2)). Qed.
+  activate (exN scs) k perm sc snap (reached ops) = Some (s', log, rz) -> NoDup log.
+Proof. intro scs. exact (reached_once (exN scs)). Qed.
 Print Assumptions C04_once.
 
 (* any ex *)
@@ -56,12 +56,12 @@ Proof. exact activate_order. Qed.
 Print Assumptions C04_order.
 
 (* called  <->  a member at call start whose turn is reached and that is alive at that moment *)
-Theorem C04_exact : forall sc2 ops k r perm sc snap s' log rz order,
+Theorem C04_exact : forall scs ops k r perm sc snap s' log rz order,
   lookup r (sets (reached ops)) = Some snap ->
-  activate (ex1 sc2) k perm sc snap (reached ops) = Some (s', log, rz) -> visit_order k perm snap = Some order ->
+  activate (exN scs) k perm sc snap (reached ops) = Some (s', log, rz) -> visit_order k perm snap = Some order ->
   forall a, In a log <->
-            exists s1, turn_state (ex1 sc2) sc order (push_frame (reached ops)) a = Some s1 /\ alive s1 a = true.
-Proof. intro sc2. exact (reached_exact (ex1 sc2)). Qed.
+            exists s1, turn_state (exN scs) sc order (push_frame (reached ops)) a = Some s1 /\ alive s1 a = true.
+Proof. intro scs. exact (reached_exact (exN scs)). Qed.
 Print Assumptions C04_exact.
 
 (* any ex, any state: a member still registered when its turn comes is called, unless an exception
@@ -74,37 +74,37 @@ Print Assumptions C04_registered_called.
 
 (* once an agent is removed from its model and neither the program nor a running frame refers to it,
    it is dead for good: none of the remaining turns calls it *)
-Theorem C04_no_removed : forall sc2 sc pre post s a,
-  alive (vst (visit (ex1 sc2) sc pre s)) a = false -> a < next_id (vst (visit (ex1 sc2) sc pre s)) ->
-  ~ In a (vlog (visit (ex1 sc2) sc post (vst (visit (ex1 sc2) sc pre s)))).
-Proof. intro sc2. exact (dead_after_prefix_never_called (ex1 sc2) (good_ex1 sc2)). Qed.
+Theorem C04_no_removed : forall scs sc pre post s a,
+  alive (vst (visit (exN scs) sc pre s)) a = false -> a < next_id (vst (visit (exN scs) sc pre s)) ->
+  ~ In a (vlog (visit (exN scs) sc post (vst (visit (exN scs) sc pre s)))).
+Proof. intro scs. exact (dead_after_prefix_never_called (exN scs) (good_exN scs)). Qed.
 Print Assumptions C04_no_removed.
 
-Theorem C04_no_new : forall sc2 ops k r perm sc snap s' log rz,
+Theorem C04_no_new : forall scs ops k r perm sc snap s' log rz,
   lookup r (sets (reached ops)) = Some snap ->
-  activate (ex1 sc2) k perm sc snap (reached ops) = Some (s', log, rz) ->
+  activate (exN scs) k perm sc snap (reached ops) = Some (s', log, rz) ->
   (forall a, In a log -> In a snap /\ a < next_id (reached ops)) /\
   (forall a, In a (reg s') -> ~ In a (reg (reached ops)) -> next_id (reached ops) <= a /\ ~ In a log).
-Proof. intro sc2. exact (reached_no_new (ex1 sc2) (good_ex1 sc2)). Qed.
+Proof. intro scs. exact (reached_no_new (exN scs) (good_exN scs)). Qed.
 Print Assumptions C04_no_new.
 
 (* a registered member that no callback removes is called - for every script that spares it and
    neither raises nor nests *)
-Theorem C04_unremoved_called : forall sc2 ops k r perm sc snap s' log rz a,
+Theorem C04_unremoved_called : forall scs ops k r perm sc snap s' log rz a,
   lookup r (sets (reached ops)) = Some snap ->
-  activate (ex1 sc2) k perm sc snap (reached ops) = Some (s', log, rz) ->
+  activate (exN scs) k perm sc snap (reached ops) = Some (s', log, rz) ->
   In a snap -> In a (reg (reached ops)) -> spares sc a -> calm sc -> In a log.
-Proof. intro sc2. exact (reached_unremoved_called (ex1 sc2) (good_ex1 sc2)). Qed.
+Proof. intro scs. exact (reached_unremoved_called (exN scs) (good_exN scs)). Qed.
 Print Assumptions C04_unremoved_called.
 
 (* a set of registered agents, callbacks that remove nobody / raise nothing / start no activation
    (they may create, keep and drop references): the log is exactly the visiting order *)
-Theorem C04_all_called : forall sc2 ops k r perm sc snap s' log rz order,
+Theorem C04_all_called : forall scs ops k r perm sc snap s' log rz order,
   lookup r (sets (reached ops)) = Some snap -> (forall a, In a snap -> In a (reg (reached ops))) ->
-  activate (ex1 sc2) k perm sc snap (reached ops) = Some (s', log, rz) ->
+  activate (exN scs) k perm sc snap (reached ops) = Some (s', log, rz) ->
   visit_order k perm snap = Some order ->
   (forall a, spares sc a) -> calm sc -> log = order /\ rz = false.
-Proof. intro sc2. exact (reached_all_called (ex1 sc2) (good_ex1 sc2)). Qed.
+Proof. intro scs. exact (reached_all_called (exN scs) (good_exN scs)). Qed.
 Print Assumptions C04_all_called.
 
 (* ... and agents_by_type[c] is such a set: activations on by-type sets inherit the theorems above *)
@@ -113,20 +113,20 @@ Theorem C04_by_type_members_registered : forall ops c snap,
 Proof. exact reached_by_type_members. Qed.
 Print Assumptions C04_by_type_members_registered.
 
-Theorem C04_set_order_untouched : forall sc2 k perm sc snap s s' log rz,
-  activate (ex1 sc2) k perm sc snap s = Some (s', log, rz) ->
+Theorem C04_set_order_untouched : forall scs k perm sc snap s s' log rz,
+  activate (exN scs) k perm sc snap s = Some (s', log, rz) ->
   forall r m, lookup r (sets s) = Some m ->
     exists keep new, lookup r (sets s') = Some (filter keep m ++ new) /\
                      forall a, In a new -> next_id s <= a < next_id s'.
-Proof. intro sc2. exact (activate_sets_keep_order (ex1 sc2) (good_ex1 sc2)). Qed.
+Proof. intro scs. exact (activate_sets_keep_order (exN scs) (good_exN scs)). Qed.
 Print Assumptions C04_set_order_untouched.
 
-Theorem C04_user_set_exact : forall sc2 ops k r perm sc snap s' log rz j m,
+Theorem C04_user_set_exact : forall scs ops k r perm sc snap s' log rz j m,
   lookup r (sets (reached ops)) = Some snap ->
-  activate (ex1 sc2) k perm sc snap (reached ops) = Some (s', log, rz) ->
+  activate (exN scs) k perm sc snap (reached ops) = Some (s', log, rz) ->
   lookup (SUser j) (sets (reached ops)) = Some m ->
   lookup (SUser j) (sets s') = Some (filter (alive s') m).
-Proof. intro sc2. exact (reached_user_set_exact (ex1 sc2) (good_ex1 sc2)). Qed.
+Proof. intro scs. exact (reached_user_set_exact (exN scs) (good_exN scs)). Qed.
 Print Assumptions C04_user_set_exact.
 
 (* shuffle_do is shuffle() followed by do(): given the same outcome of random.shuffle on the same
@@ -152,8 +152,8 @@ Print Assumptions C04_exception_aborts.
 
 (* the nested activation is an activation: every statement proved for `activate ex0` applies to the
    calls it makes, and whatever it does the outer executor stays well behaved *)
-Theorem C04_nested_executor_good : forall sc2, good_ex (ex1 sc2).
-Proof. exact good_ex1. Qed.
+Theorem C04_nested_executor_good : forall scs, good_ex (exN scs).
+Proof. exact good_exN. Qed.
 Print Assumptions C04_nested_executor_good.
 
 Theorem C04_groupby_once : forall ex ops k r m perms sc members s' logs rz,
@@ -205,22 +205,22 @@ Print Assumptions C04_source_calls.
    call exactly the members whose turn is reached alive, and only members at call start *)
 Theorem C04_exactly_once_of_source : forall k f,
   In (k, f) source_fns ->
-  forall sc2 ops r snap is_str perm sc s' log rz order,
+  forall scs ops r snap is_str perm sc s' log rz order,
     lookup r (sets (reached ops)) = Some snap ->
-    run_fn (ex1 sc2) sc f is_str perm snap (reached ops) = Some (s', log, rz) ->
+    run_fn (exN scs) sc f is_str perm snap (reached ops) = Some (s', log, rz) ->
     visit_order k perm snap = Some order ->
     NoDup log /\
     (forall a, In a log <->
-               exists s1, turn_state (ex1 sc2) sc order (push_frame (reached ops)) a = Some s1 /\ alive s1 a = true) /\
+               exists s1, turn_state (exN scs) sc order (push_frame (reached ops)) a = Some s1 /\ alive s1 a = true) /\
     (forall a, In a log -> In a snap /\ a < next_id (reached ops)).
 Proof. exact source_exactly_once. Qed.
 Print Assumptions C04_exactly_once_of_source.
 
 Theorem C04_all_called_of_source : forall k f,
   In (k, f) source_fns ->
-  forall sc2 ops r snap is_str perm sc s' log rz order,
+  forall scs ops r snap is_str perm sc s' log rz order,
     lookup r (sets (reached ops)) = Some snap -> (forall a, In a snap -> In a (reg (reached ops))) ->
-    run_fn (ex1 sc2) sc f is_str perm snap (reached ops) = Some (s', log, rz) ->
+    run_fn (exN scs) sc f is_str perm snap (reached ops) = Some (s', log, rz) ->
     visit_order k perm snap = Some order ->
     (forall a, spares sc a) -> calm sc -> log = order /\ rz = false.
 Proof. exact source_all_called. Qed.
@@ -234,6 +234,38 @@ Theorem C04_source_registry :
   (forall c keep s, Inv s -> create_stmts gen_register_order c keep s = create1 c keep s).
 Proof. exact source_registry. Qed.
 Print Assumptions C04_source_registry.
+
+(* GroupBy.do / map of the working tree, with `method` naming a translated AgentSet method, run on the model
+   state, IS the model's visit_groups (both forms of `method` at both levels) *)
+Theorem C04_source_groupby_is_visit_groups : forall k f,
+  In (k, f) source_fns ->
+  forall ex sc is_str inner_is_str gs perms s,
+    run_gfn ex sc gen_groupby_do_fn is_str f inner_is_str gs perms s = visit_groups ex k sc gs perms s /\
+    run_gfn ex sc gen_groupby_map_fn is_str f inner_is_str gs perms s = visit_groups ex k sc gs perms s.
+Proof. exact source_groupby_is_visit_groups. Qed.
+Print Assumptions C04_source_groupby_is_visit_groups.
+
+(* --- round 3: any nesting depth, caught exceptions, strong lists --- *)
+(* an exception caught inside the callback (try: set.do(...) except Exception) never leaves it *)
+Theorem C04_caught_exception_stays_inside : forall inner sc2 self s k r perm,
+  snd (ex_next inner sc2 self s (TryNested k r perm)) = false.
+Proof. exact try_nested_never_raises. Qed.
+Print Assumptions C04_caught_exception_stays_inside.
+
+(* whatever happens inside (nesting of any depth, exceptions caught or not), an activation leaves the
+   stack of activation frames exactly as it found it: no frame - and no agent bound in one - leaks *)
+Theorem C04_frames_restored : forall scs k perm sc snap s s' log rz,
+  activate (exN scs) k perm sc snap s = Some (s', log, rz) -> cur s' = cur s.
+Proof. exact activate_frames_restored. Qed.
+Print Assumptions C04_frames_restored.
+
+(* groupby(result_type="list").do/map(callable): the GroupBy holds the agents strongly, so unless a
+   callback raises EVERY member at groupby time is reached exactly once, group by group in first-seen
+   key order - whether or not it was removed from its model meanwhile *)
+Theorem C04_grouplist_all_reached : forall scs sc m members s s' logs,
+  group_lists (exN scs) sc m members s = (s', logs, false) -> logs = groups_of m members.
+Proof. exact group_lists_all. Qed.
+Print Assumptions C04_grouplist_all_reached.
 
 (* ------------------------------------------------------------------ non-vacuity *)
 Definition ex_ops : list op :=
@@ -327,3 +359,26 @@ Example C04_example_source_registry :
   create_stmts gen_register_order 2 true (reached ex_ops) = create1 2 true (reached ex_ops) /\
   lookup (SType 2) (sets (create1 2 true (reached ex_ops))) = Some [6].
 Proof. vm_compute. repeat split. Qed.
+
+(* depth 3 with a caught exception: 1 runs user-set.map inside try/except (4 raises in there: caught,
+   marked -36) and goes on to remove 4; 2 runs model.agents.do, in which 3 runs agents_by_type[0].do,
+   in which 3 raises: that exception leaves all three activations *)
+Definition ex_ops4 : list op :=
+  [OAct (Create 0 1 false); OAct (Create 1 1 false); OAct (Create 0 1 false); OAct (Create 1 1 false); ONewSet [4; 3; 2; 1]].
+Example C04_example_deep :
+  exists s', activate (exN [[(4, [Raise]); (3, [Nested KDo (SType 0) []])]; [(1, [RemoveId 2 false]); (3, [Raise])]])
+                      KDo [] [(1, [TryNested KMap (SUser 0) []; RemoveId 4 false]); (2, [Nested KDo SAll []])]
+                      [1; 2; 3; 4] (reached ex_ops4) = Some (s', [1; 2], true) /\
+             nlog s' = [-35; 4; -36; -35; 1; 3; -35; 1; 2; 3] /\ reg s' = [1; 3] /\ cur s' = [].
+Proof. eexists. vm_compute. repeat split. Qed.
+
+(* list groups: 1 removes 3 and 2 removes itself, both are still reached (the GroupBy holds them) *)
+Example C04_example_grouplist :
+  exists s', group_lists (exN []) [(1, [RemoveId 3 false]); (2, [RemoveSelf false])] 2 [1; 2; 3; 4] (reached ex_ops4)
+             = (s', [(1, [1; 3]); (0, [2; 4])], false) /\ reg s' = [1; 4] /\ cur s' = [].
+Proof. eexists. vm_compute. repeat split. Qed.
+
+Example C04_example_group_bridge :
+  exists s', run_gfn (ex1 []) ex_sc gen_groupby_do_fn true gen_do_fn false (groups_of 2 [5; 4; 2; 1]) [] (reached ex_ops)
+             = Some (s', [(1, [5; 1]); (0, [4])], false).
+Proof. eexists. vm_compute. reflexivity. Qed.
